@@ -32,7 +32,7 @@ tvars == <<vars, ti, nsil, rep>>
 
 ResetA(ev) ==
   LET g == [main |-> ev.main, isr |-> ev.isr, eqd |-> ev.eqdepth, period |-> ev.period, sleeper |-> (ev.sleeper = 1),
-            eqstart |-> ev.eqstart, aqstart |-> ev.aqstart] IN
+            eqstart |-> ev.eqstart, aqstart |-> ev.aqstart, srun |-> (ev.srun = 1)] IN
   /\ cfg' = g /\ m' = Start(g).m /\ aq' = Start(g).aq /\ eq' = Start(g).eq /\ isr' = Start(g).isr
   /\ taint' = {} /\ stack' = <<>> /\ acc' = {} /\ claimed' = <<>> /\ sentOk' = {} /\ seen' = <<>>
   /\ obs' = [c |-> -1, op |-> "", var |-> "", calls |-> <<>>]
